@@ -88,12 +88,17 @@ func (m *model) clone() *model {
 	return &model{data: m.data, links: append([]mlink(nil), m.links...), builder: m.builder, asSerialized: m.asSerialized}
 }
 
-// expected is the link order every view and the encoding must show.
-func (m *model) expected() []mlink {
-	if m.asSerialized {
-		return append([]mlink(nil), m.links...)
-	}
-	return m.sorted()
+// expected is the canonical link order: what every view and the encoding must
+// show once the links have been mutated.
+func (m *model) expected() []mlink { return m.sorted() }
+
+// okOrder accepts the canonical order, and for a decoded node whose links
+// were never mutated also the order of the block it came from. (On such a
+// node a re-encode after SetData already sorts the bytes while Links() still
+// shows the block's order; the statement fixes neither, so both are accepted
+// for both.)
+func (m *model) okOrder(got []mlink) bool {
+	return eqLinks(got, m.sorted()) || (m.asSerialized && eqLinks(got, m.links))
 }
 
 // sorted = stable insertion sort by byte-wise name (own implementation on purpose).
@@ -393,7 +398,7 @@ func (w *world) checkRaw(via string, raw []byte) {
 	if !eqData(data, w.m.data) {
 		w.fail("wire-data/after="+w.lastMut, "encoded Data == current data", fmt.Sprintf("%x", w.m.data), fmt.Sprintf("%x via %s", data, via))
 	}
-	if !eqLinks(links, want) {
+	if !w.m.okOrder(links) {
 		cls := "wire-links"
 		if len(links) == len(want) && sameMultiset(links, want) {
 			cls = "wire-link-order"
@@ -411,7 +416,7 @@ func (w *world) checkRaw(via string, raw []byte) {
 	if !eqData(dec.Data(), w.m.data) {
 		w.fail("decode-data/after="+w.lastMut, "decoded data == current data", fmt.Sprintf("%x", w.m.data), fmt.Sprintf("%x", dec.Data()))
 	}
-	if got := fromFormat(dec.Links()); !eqLinks(got, want) {
+	if got := fromFormat(dec.Links()); !w.m.okOrder(got) {
 		w.fail("decode-links/after="+w.lastMut, "decoded links == model links stably sorted by name", fmtLinks(want), fmtLinks(got))
 	}
 }
@@ -479,16 +484,20 @@ func (w *world) observe(o string) {
 		w.warm = true
 	case "Links":
 		got := fromFormat(n.Links())
-		if want := w.m.expected(); !eqLinks(got, want) {
+		if want := w.m.expected(); !w.m.okOrder(got) {
 			w.fail("links-view/after="+w.lastMut, "Links() == model links stably sorted by name", fmtLinks(want), fmtLinks(got))
 		}
 	case "Tree":
 		got := n.Tree("", -1)
 		want := w.m.expected()
-		ok := len(got) == len(want)
-		for i := 0; ok && i < len(got); i++ {
-			ok = got[i] == want[i].name
+		same := func(ref []mlink) bool {
+			ok := len(got) == len(ref)
+			for i := 0; ok && i < len(got); i++ {
+				ok = got[i] == ref[i].name
+			}
+			return ok
 		}
+		ok := same(want) || (w.m.asSerialized && same(w.m.links))
 		if !ok {
 			w.fail("tree-view/after="+w.lastMut, "Tree() == sorted names", fmtLinks(want), fmt.Sprintf("%q", got))
 		}
@@ -559,7 +568,7 @@ func (w *world) observe(o string) {
 		for _, l := range out.Links {
 			got = append(got, mlink{l.Name, l.Size, l.Cid})
 		}
-		if want := w.m.expected(); !eqLinks(got, want) || !eqData(out.Data, w.m.data) {
+		if want := w.m.expected(); !w.m.okOrder(got) || !eqData(out.Data, w.m.data) {
 			w.fail("json-view/after="+w.lastMut, "MarshalJSON shows current data and sorted links", fmt.Sprintf("%x %s", w.m.data, fmtLinks(want)), fmt.Sprintf("%x %s", out.Data, fmtLinks(got)))
 		}
 	}
@@ -911,7 +920,15 @@ func history(k *vlib.Case, allowNil, startDecoded bool) {
 				return
 			}
 			w.n = nd.(*mdag.ProtoNode)
-			w.m.links = w.m.expected() // serialized order is the new insertion order
+			// the block's own link order (read with the harness's wire reader) is the
+			// new insertion order, and the node is "as decoded" again
+			_, _, wl, err := parseWire(raw)
+			if err != nil || !w.m.okOrder(wl) {
+				w.observe("RawData") // reports the wire-order violation
+				return
+			}
+			w.m.links = wl
+			w.m.asSerialized = true
 			w.mutated("ReloadBlock")
 		}
 		w.observeSome()
